@@ -98,3 +98,8 @@ PROPS['C08'] = dict(
   text='Decides that unchecked sampling coordinates are wrapped by repeat() with the right dimension (NONE uses the bounds-checked fetch), that the bilinear weight is exactly bits [16-B,16) and the integer part bits [16,32) of the fixed-point coordinate, that each of the 48 generated affine fetchers is registered under the format and repeat mode it was instantiated with and the untransformed fetcher excludes the repeats it does not implement, '
        'and that every filter/repeat enumerator is handled by the switches that dispatch on it. The fetched values themselves (interpolation arithmetic, convolution alignment, SIMD scalers) are not decided.',
   note='Trusted: clang-14 IR = built program, bitprov transfer functions.')
+PROPS['C11'] = dict(
+  technique='static analysis: assertion inventory with type-range discharge at call sites and a confirmed-invariant table (T-WHO), coverage of overflow tests over all components (T-COV), guard dominance of narrowing stores (T-GRD), unused-status rule (T-ERR), width of products (T-WID), sibling rounding constants',
+  text='Decides that no assert() in the matrix unit can fire from the public API (each is discharged by the sign-extended 32-bit range of every caller\'s vector, or is a confirmed invariant keyed by its exact expression), that point/point_3d compare all three narrowed components, that multiply\'s narrowing store is dominated by both range tests and the float conversion by both bounds, '
+       'that no library caller ignores a matrix function\'s status, that 64-bit accumulations widen before multiplying, and that the 16.16 roundings agree on +0x8000. Exact rounding of the 128-bit division and transform_bounds (F6) are value-level and not decided.',
+  note='Trusted: clang-14 IR = built program. F4 (assert(div < 2^48) reachable from pixman_transform_point) was repaired in /repo; the relaxed assertion is in the confirmed table with its reason. F6 is recorded in DESIGN.md as outside static reach.')
